@@ -1,6 +1,6 @@
 #!/bin/bash
 # usage: engine/run_all.sh <quick|thorough> [ids...]  - runs the checks one after the other in /verif against /repo, logs to notes/run_all_<tier>.log
-cd /verif; tier=$1; shift; ids=${@:-$(seq -f "C%02g" 1 20)}; log=/verif/notes/run_all_$tier.log; : > $log
+cd /verif; tier=$1; shift; ids=${@:-$(seq -f "C%02g" 1 20)}; log=/verif/notes/run_all_$tier.log; echo "# run started $(date -u +%FT%TZ) ids: $ids" >> $log
 for p in $ids; do s=$(date +%s); ./check $p --tier $tier > /verif/build/run_all_$p.$tier.out 2>&1; rc=$?; e=$(( $(date +%s) - s ))
   echo "$p rc=$rc wall=${e}s $(grep -E "^$p $tier" /verif/build/run_all_$p.$tier.out | tail -1 | cut -c1-160)" >> $log
   grep -E "^VIOLATION|KNOWN-FINDING|CHECK-ERROR|Traceback" /verif/build/run_all_$p.$tier.out | head -5 >> $log
